@@ -200,14 +200,10 @@ func c19Observe(c c19Case, twice bool) (first, second c19Obs) {
 	}
 	clientConn := c19NewConn(proto.Protocol(c.Protocol), &net.TCPAddr{IP: net.IP(netip.MustParseAddr(c.IP).AsSlice()), Port: c.RemotePort}, c19ConnType(c))
 	defer clientConn.cancel()
-	player := &connectedPlayer{
-		MinecraftConn:      clientConn,
-		sessionHandlerDeps: deps,
-		log:                logr.Discard(),
-		profile:            &profile.GameProfile{ID: id, Name: c.Name, Properties: props},
-		// exactly as handshakeSessionHandler.handleHandshake builds it
-		virtualHost: virtualHostAddr(c.ServerAddress, int(c.Port), "tcp"), // the real construction used by handleHandshake
-	}
+	// the player as the login path builds it: virtual host from the real construction
+	// used by handleHandshake, player from the real constructor
+	player := newConnectedPlayer(clientConn, &profile.GameProfile{ID: id, Name: c.Name, Properties: props},
+		virtualHostAddr(c.ServerAddress, int(c.Port), "tcp"), packet.LoginHandshakeIntent, false, nil, deps)
 	var info ServerInfo = NewServerInfo("backend", netutil.NewAddr(c.BackendAddr, "tcp"))
 	if c.ServerHook == "identity" {
 		info = c19HAInfo{info}
